@@ -255,6 +255,13 @@ func (c *Ctx) ViolateConfirmed(kind, sig, msg string, cs any, times int) {
 		c.Violate(kind, sig, msg, cs)
 		return
 	}
+	// A change that breaks many cases at once would spend its time re-running all of them one after the other: once
+	// five failures of a kind are confirmed, further failing cases of that kind are counted but not re-run or listed.
+	if confirmedByKind[kind] >= 5 {
+		n, _ := c.notes["further_failing_cases_not_rerun:"+kind].(int)
+		c.notes["further_failing_cases_not_rerun:"+kind] = n + 1
+		return
+	}
 	raw, _ := json.Marshal(cs)
 	for i := 0; i < times; i++ {
 		if m := f(raw); m == "" {
@@ -264,8 +271,11 @@ func (c *Ctx) ViolateConfirmed(kind, sig, msg string, cs any, times int) {
 			return
 		}
 	}
+	confirmedByKind[kind]++
 	c.Violate(kind, sig, msg, cs)
 }
+
+var confirmedByKind = map[string]int{}
 
 func clipStr(s string, n int) string {
 	if len(s) > n {
